@@ -151,7 +151,10 @@ Section Spec.
 
   (* a step of the engine, the state being written (the hills not yet tabulated are tabulated), a restart *)
   Definition spec_event (s : sstate) (e : eventR) : sstate :=
-    match e with EStep i => spec_step s i | ESave => spec_tabulate s | ERestart r => spec_restart s r end.
+    match e with
+    | EStep i => spec_step s i | ESave => spec_tabulate s | ERestart r => spec_restart s r
+    | EReload => spec_tabulate s
+    end.
 
   Definition spec_run (hist : list eventR) : sstate := fold_left spec_event hist (mkS [] [] (c_geom0 c)).
 End Spec.
